@@ -216,7 +216,8 @@ def run_chunk(ctx, binp, exes, base, out, err):
         text = "".join(e.script(base + i) for i, e in enumerate(exes))
         r = ctx.run([binp], input=text, timeout=1500)
         if r.returncode != 0:
-            raise vlib.ToolError("replay_bits failed rc=%d: %s" % (r.returncode, (r.stderr or "")[-1500:]))
+            tail = [l for l in (r.stdout or "").splitlines()[-40:] if l.startswith(("err", "exec"))][-3:]
+            raise vlib.ToolError("replay_bits failed rc=%d: %s | %s" % (r.returncode, (r.stderr or "")[-1500:], tail))
         cur = None
         for line in r.stdout.splitlines():
             if line.startswith("exec "):
